@@ -11,6 +11,34 @@ E = {
 }
 # id: (engine, level, text, note, technique)
 CHECKS = {
+ "C01": ("E1", "exploration",
+   "documents (all token strings <= 4/5 tokens, all JSON trees <= 4/5 nodes in 2 styles, truncations and single-token mutants, binding-rule documents) x 50 destination types x {ConfigStd, ConfigDefault} x {-, UseNumber} + UseInt64: error iff encoding/json errors, else equal canonical dumps",
+   "encoding/json is the reference; UseInt64 expectation derived from the reference's UseNumber result by the documented rule",
+   "bounded-exhaustive enumeration of (input, program=destination type, configuration) against a reference implementation"),
+ "C11": ("E5", "exploration",
+   "the C01 decode suite (valid documents: values compared; structurally malformed documents: must be rejected) enumerated in three processes (JIT decoder, SONIC_USE_OPTDEC=1, +SONIC_USE_FASTMAP=1) through the real start-up selection; observation digests compared case by case, mismatches regenerated in full and classified",
+   "64-bit digests (collision probability ~1e-12 per run); errors compared as a class",
+   "exhaustive enumeration of a bounded input x type x option space replayed per start-up configuration, differential oracle"),
+ "C12": ("E5", "exploration",
+   "the C04 suite (boundary values of ~250 types x all 512 encoder option sets, cyclic/deep values) and the C03 suite enumerated under the JIT back end and under SONIC_ENCODER_USE_VM=1: byte-identical output or both errors",
+   "64-bit digests; outputs of maps without SortMapKeys compared as byte multisets (Go map order is random)",
+   "exhaustive enumeration of a bounded value x option space replayed per start-up configuration, differential oracle"),
+ "C13": ("E5", "exploration",
+   "four suites (native string/number routines on 20 payloads at every offset of every length 0..136 and 2048 exponents x mantissa patterns; structural validation through 17 APIs; the C03 encode suite; the C01 decode suite) enumerated with AVX2 and with SONIC_MODE=noavx2: bit-identical observations",
+   "the host must support AVX2 for the comparison to be non-vacuous (it does here); 64-bit digests",
+   "exhaustive enumeration of bounded input strata replayed per instruction-set configuration, differential oracle"),
+ "C14": ("E1", "exploration",
+   "every JSON tree up to 3-5 nodes over three alphabets in 3 whitespace styles, a large-shape family (15/16/17/33 members, duplicate keys) and a depth grid, each with EVERY path of its tree plus missing / wrong-kind / out-of-range steps, through 79 lookups per path (5 search functions x 8 option sets, Node chains on 10 root kinds fresh / reused / loaded); full read-only view and ast.Preorder event streams",
+   "expected results come from the generated tree, cross-checked per document against an encoding/json token walk",
+   "bounded-exhaustive enumeration of (document, path, option set, entry point) with expectations known by construction"),
+ "C17": ("E4", "fault_enumeration",
+   "14k streams (<= 3 values x separators x 25 tails) x 4 buffer sizes x ALL ways of cutting the bytes into Read results (n <= 10/12), zero-byte reads at every position, EOF with or after the last data, a reader error at every byte position; writer failures at every Write call incl. the newline: value sequence and terminal condition equal encoding/json.Decoder on the unchunked bytes",
+   "encoding/json.Decoder is the reference, with the tolerances stated in the check (either error when data and reader both fail)",
+   "exhaustive enumeration of environment answers (reader/writer scripts) with a reference-model oracle"),
+ "C19": ("E1", "exploration",
+   "parse: every literal <= 6/7 characters over the number alphabet, boundary integers in 13 spellings into all 11 integer kinds, exact math/big rounding midpoints for all 2047 float64 and 255 float32 exponents incl. 770-1100 digit spellings; format: all exponents x ~4000 mantissa patterns, all d*10^e (d<=9999), all int16/uint16, thorough: ALL 2^32 float32 values; oracles strconv/encoding/json with a math/big arbiter",
+   "strconv.ParseFloat / encoding/json are the references, arbitrated by exact math/big.Rat rounding",
+   "bounded-exhaustive enumeration of literals and of the complete float32 value space against reference implementations"),
  "C02": ("E1", "exploration",
    "every token string <= n tokens, every length stratum 0..136, every single-token mutant / byte truncation and every single-byte substitution/insertion (all 256 values) of small documents, through 17 consuming entry points, against a two-sided reference bracket (json.Valid above, json.Valid with string contents masked below)",
    "trusts encoding/json.Valid and a 30-line string-masking scanner; runs the shipped pre-assembled native routines (AVX2 here, SSE through C13)",
